@@ -83,6 +83,9 @@ func TestC14RoundTrip(t *testing.T) {
 				if rapid.Bool().Draw(rt, "hostile_high") {
 					x |= uint64(rapid.IntRange(0, 1<<20).Draw(rt, "high")) << 8
 				}
+				if x == 0 && (strings.HasSuffix(leaves[li].Path, "CommitteeLength") || strings.HasSuffix(leaves[li].Path, "CommitteesAtSlot")) {
+					x = 1 // the attester duty's own decoder declares zero invalid for these two fields
+				}
 				leaves[li].Set(x)
 				hostile = leaves[li].Path
 			}
